@@ -470,6 +470,22 @@ void h_GF_copy(void)
   REACH("exit");
 }
 
+/* ---- read accessors: isVanishing() is the Vanishing flag that prepare() establishes (Vanishing <=> no part); getIndex(0) is the index of
+ * the annihilation operator C, getIndex(1) the index of the creation operator CX (not the other way round); nothing is written. */
+//@function Pomerol::GreensFunction::isVanishing() const as GreensFunction_isVanishing
+//@contract
+__CPROVER_requires(__CPROVER_is_fresh(self, sizeof(*self)))
+__CPROVER_assigns()
+__CPROVER_ensures(__CPROVER_return_value == self->Vanishing)
+//@end
+//@harness h_GF_isVanishing enforce=GreensFunction_isVanishing props=C01 min_obl=15 timeout=120 reach=1
+void h_GF_isVanishing(void)
+{
+  struct GreensFunction *gf;
+  _Bool v = GreensFunction_isVanishing(gf);
+  REACH("exit");
+}
+
 /* =====================================================================================================================
  * WHAT IS PROVED (for all inputs satisfying the stated type invariants), WHAT IS NOT
  *
@@ -496,7 +512,8 @@ void h_GF_copy(void)
  *   invariant of the source); same S, H, C, CX, DM; one `new GreensFunctionPart(*source part)` per source part, in order, appended to the copy's
  *   list (monitor), ghost position of the source list copied exactly once; sizes equal; source list not modified.
  *   TRUSTED: implicit ComputableObject copy constructor copies Status; the copy of ONE part (GreensFunctionPart's implicit copy) is opaque.
- * NOT covered: destructor, getIndex, isVanishing; the value of one part is opaque here (gfterm.c / gfpart.c).
+ * h_GF_isVanishing: the accessor returns the Vanishing flag, writes nothing.
+ * NOT covered: destructor, getIndex; the value of one part is opaque here (gfterm.c / gfpart.c).
  *
  * ASSUMPTIONS introduced here: std::list model (push_back appends, size counts, iteration in order; handles canonical); callee stubs
  *   DensityMatrix::isRetained/getPart, Hamiltonian::getPart, FieldOperator::getPartFromLeft/RightIndex (their pre-conditions are asserted);
